@@ -6,6 +6,8 @@ mod sqlgen;
 mod sched;
 mod sqlgen_sub;
 mod sqlgen_cons;
+mod sqlgen_idx;
+mod sqlgen_val;
 use common::*;
 
 fn main() {
@@ -39,7 +41,9 @@ fn main() {
     let ctx = Ctx { seed, thorough, model_bin, scratch, replay, corpus_dir };
     let _ = std::fs::create_dir_all(&ctx.scratch);
     // keep panics of the code under test quiet; they are caught and reported by the engines
-    std::panic::set_hook(Box::new(|_| {}));
+    if std::env::var("VERIF_SHOW_PANICS").is_err() {
+        std::panic::set_hook(Box::new(|_| {}));
+    }
     let report = engines::run(&engine, &ctx);
     let js = report.to_json();
     if out.is_empty() {
